@@ -22,11 +22,24 @@ def fsync(mode, nq, nt, pq=2, pt=8, extra=None):
             "trace_module": "Trace_FilterSync",
             "n": {"quick": nq, "thorough": nt}, "procs": {"quick": pq, "thorough": pt}}
 
+def wsync(mode, nq, nt, pq=1, pt=4):
+    """the same histories with the storage hook observing every write: <trace>.w is validated by Trace_Writes"""
+    d = fsync(mode, nq, nt, pq, pt, ["wlog=1"])
+    d["name"] = "filtersync-w-" + mode
+    return d
+
 def mc_cp(name, quick, tq=600, tt=3000):
     return {"module": "MC_CheckPoints", "cfg": {"quick": ("MC_CheckPoints_%s.cfg" % name) if quick else None, "thorough": "MC_CheckPoints_%s.cfg" % name},
             "timeout": {"quick": tq, "thorough": tt}, "workers": 8}
 
 MC_FILTERSYNC = {"module": "MC_FilterSync", "cfg": "MC_FilterSync.cfg", "timeout": {"quick": 600, "thorough": 1800}, "workers": 6}
+
+# the pipeline at the granularity of one storage write, with a crash before any write (Writes.tla)
+MC_WRITES = {"module": "MC_Writes", "cfg": {"quick": "MC_Writes.cfg", "thorough": "MC_Writes_2.cfg"},
+             "timeout": {"quick": 900, "thorough": 3000}, "workers": 8}
+# the three-write chain set_scripts had before fix (see KNOWN_FINDINGS.json): TLC must refute it (vacuity guard)
+MC_WRITES_SPLIT = {"module": "MC_Writes", "cfg": {"quick": None, "thorough": "MC_Writes_split.cfg"}, "expect": "violation",
+                   "timeout": {"quick": 900, "thorough": 900}, "workers": 8}
 
 FS_ASSUMPTIONS = COMMON_ASSUMPTIONS + [
     "the index is read back by a raw scan of the RocksDB keyspace after every event and compared with the ground truth TLC derives from the world (Index.tla)",
@@ -88,8 +101,9 @@ CHECKS = {
     },
     "C08": {
         "trace_module": "Trace_FilterSync",
-        "mc": [MC_FILTERSYNC],
-        "drivers": [{"name": "filtersync-crash", "driver": "filtersync", "args": ["mode=crash"], "trace_module": "Trace_FilterSync",
+        "mc": [MC_FILTERSYNC, MC_WRITES, MC_WRITES_SPLIT],
+        "drivers": [wsync("sync", 8, 60, 1, 4), wsync("scripts", 8, 60, 1, 4), wsync("fork", 8, 60, 1, 4),
+                    {"name": "filtersync-crash", "driver": "filtersync", "args": ["mode=crash"], "trace_module": "Trace_FilterSync",
                      "n": {"quick": 1, "thorough": 6}, "procs": {"quick": 6, "thorough": 12},
                      "tier_args": {"quick": ["maxk=70"], "thorough": ["maxk=100000"]}},
                     # the same histories when the user does not repeat an interrupted set_scripts
